@@ -13,7 +13,7 @@ from ..loader import AnalysisError
 from .valeq import check_typed_identity, check_json_bytes, check_enum_distinct
 from .c16 import sibling_reference_sites
 from .ladders import (extract_ladder, check_ladder_order, repo_subclass_pairs, handler_ladder, dispatch_model, _bound_value, _literal_seq,
-                      table_entries, _Unsupported, subst, sequence_elements, resolve_callee, handler_type_names, comprehension_elements, fold_lookups)
+                      table_entries, _Unsupported, subst, sequence_elements, resolve_callee, handler_type_names, comprehension_elements, fold_lookups, record_fields, Dispatch)
 from . import partition_model as PM
 
 RL = "runner_local.memento_run_local"
@@ -811,7 +811,72 @@ def strategy_table(fa):
             if isinstance(ve, ast.Call) and isinstance(ve.func, ast.Call) and A.call_attr(ve.func) == "partial" and ve.func.args:
                 ve = ast.Call(func=ve.func.args[0], args=list(ve.func.args[1:]) + list(ve.args), keywords=[])   # partial(C, a)() is C(a)
             table[dk.split(".")[1]] = A.call_attr(ve) if isinstance(ve, ast.Call) else None
+    # entries whose key and value come from the same row of a table walked in (nested) loops: what an abstract run of the body
+    # leaves in its dictionaries (later entries replace earlier ones there as they do at run time)
+    if not table or any(v is None for v in table.values()):
+        for (_nm, ent) in sorted(tables_built(fa).items()):
+            got = {}
+            for (k, v) in ent:
+                dk = A.dotted(k)
+                if dk and dk.startswith("ResultType.") and dk.count(".") == 1:
+                    got[dk.split(".")[1]] = A.call_attr(v) if isinstance(v, ast.Call) and A.dotted(v.func) is not None else None
+            for m_, v_ in got.items():
+                if table.get(m_) is None:
+                    table[m_] = v_
     return table
+
+
+class _TableRun(Dispatch):
+    """Abstract run of a function that fills dictionaries (a strategy table built in loops over literal tables, entries whose
+    key and value come from the same row): a local bound to a dictionary display follows `d[k] = v`, and `getattr(x, "name")`
+    is `x.name`."""
+
+    def _bind(self, target, value, env):
+        if isinstance(target, ast.Subscript) and isinstance(target.value, ast.Name) and isinstance(env.get(target.value.id), ast.Dict):
+            d = env[target.value.id]
+            k = self.ev(target.slice, dict(env), ("<no class>", "exact", "own"))
+            env[target.value.id] = ast.Dict(keys=list(d.keys) + [k], values=list(d.values) + [value])
+            return
+        Dispatch._bind(self, target, value, env)
+
+    def _call(self, e, env, w):
+        if isinstance(e.func, ast.Name) and e.func.id == "getattr" and e.func.id not in env and len(e.args) == 2 and not e.keywords:
+            o, nm = self.ev(e.args[0], env, w), self.ev(e.args[1], env, w)
+            if A.const_str(nm) and A.const_str(nm).isidentifier():
+                return ast.Attribute(value=o, attr=A.const_str(nm), ctx=ast.Load())
+        if isinstance(e.func, ast.Attribute) and e.func.attr == "update" and isinstance(e.func.value, ast.Name) and isinstance(env.get(e.func.value.id), ast.Dict) \
+                and len(e.args) <= 1 and all(k.arg for k in e.keywords):
+            add = self.ev(e.args[0], env, w) if e.args else ast.Dict(keys=[], values=[])
+            if not isinstance(add, ast.Dict) or any(k is None for k in add.keys):
+                raise _Unsupported("update with something that is not a display")
+            d = env[e.func.value.id]
+            env[e.func.value.id] = ast.Dict(keys=list(d.keys) + list(add.keys) + [ast.Constant(value=k.arg) for k in e.keywords],
+                                            values=list(d.values) + list(add.values) + [self.ev(k.value, env, w) for k in e.keywords])
+            return ast.Constant(value=None)
+        return Dispatch._call(self, e, env, w)
+
+
+def tables_built(fa):
+    """{local name: [(key, value)]} -- the dictionaries the function holds in its locals when it ends, entries in the order they
+    were made, decided by running the body abstractly (loops over literal tables unrolled); {} when the body is not understood or
+    its paths disagree."""
+    params = [p for p in (fa.fi.params or []) if p not in ("self", "cls")] or list(fa.fi.params or [])
+    if not params:
+        return {}
+    try:
+        run = _TableRun(fa, [], subject=params[0])
+        comps = run._block(fa.node.body, {}, ("<no class>", "exact", "own"))
+    except (_Unsupported, AnalysisError, RecursionError):
+        return {}
+    ends = [env for (kind, env, _v) in comps if kind in ("fall", "return")]
+    if not ends:
+        return {}
+    out = {}
+    for nm in ends[0]:
+        vs = [e.get(nm) for e in ends]
+        if all(isinstance(v, ast.Dict) and all(k is not None for k in v.keys) for v in vs) and len({A.norm(v) for v in vs}) == 1 and vs[0].keys:
+            out[nm] = list(zip(vs[0].keys, vs[0].values))
+    return out
 
 
 def check_exhaustive(ck, R):
@@ -1624,6 +1689,20 @@ def mapping_built(fa, expr, at):
         for (_ln, ent) in sorted(later, key=lambda x: x[0]):
             out += ent
         return out
+    if isinstance(expr, ast.Call) and A.call_attr(expr) == "_asdict" and not expr.args and not expr.keywords and A.call_recv(expr) is not None:
+        # <named tuple>._asdict(): its fields, in declaration order, with what the constructor was given for them
+        rec, at_r = follow_value(fa, A.call_recv(expr), at)
+        if isinstance(rec, ast.Call) and isinstance(rec.func, ast.Name) and not fa.df.is_local(rec.func.id):
+            fs = record_fields(fa, rec.func.id)
+            if fs is not None and not any(isinstance(a, ast.Starred) for a in rec.args) and all(k.arg for k in rec.keywords):
+                out = []
+                for i, f in enumerate(fs):
+                    a = A.arg_or_kw(rec, i, f)
+                    if a is None:
+                        return None
+                    out.append((ast.copy_location(ast.Constant(value=f), expr), a, at_r))
+                return out
+        return None
     ent = table_entries(fa, expr, at)
     return None if ent is None else [(k, v, at) for (k, v) in ent]
 
